@@ -39,6 +39,8 @@ type vfSrv struct {
 	dir    string
 	cancel func()
 	clock  atomic.Int64
+	// the runner dies after its final chunk: tokenizing prompt + response (GenerateHandler) fails
+	tokenizeFail atomic.Bool
 	// what the fake runners answer: chunks, then the final record (or an error after `failAfter` chunks)
 	mu         sync.Mutex
 	completion func(ctx context.Context, req llm.CompletionRequest, fn func(llm.CompletionResponse)) error
